@@ -80,6 +80,15 @@ def replay_case(case, tag, rng, tier):
                 onn = observe(nn)
                 if match_points(onn["cyc"], exp_cyc) or not parallel_dir(onn["n"], obs["n"], oriented=True):
                     bad("C09.negneg", "-(-p) must match p including the normal", onn, pose)
+                # the library's own "matches including the normal" predicate: true for -(-p), false for -p, and p == -p as sets
+                for what, other, want in (("negneg", nn, True), ("neg", neg, False)):
+                    v, e = call(val.eq_with_normal, other)
+                    out["calls"] += 1
+                    if e is not None or bool(v) is not want:
+                        bad("C09.%s_eq_with_normal" % what, "p.eq_with_normal(%s) is %r, must be %r" % ("-(-p)" if want else "-p", e["cls"] if e else v, want), on, pose)
+                v, e = call(lambda: val == neg)
+                if e is not None or not v:
+                    bad("C09.neg_same_set", "p == -p is %r: -p must denote the same set" % (e["cls"] if e else v), on, pose)
         else:
             why = R(obs, body, pose)
             if why:
